@@ -124,9 +124,25 @@ pub proof fn lemma_conn_pdu_bytes(m: MV)
     assert(ser(m) =~= ser(g[0].1) + ser(g[1].1));
 }
 """, mod="x224", name="x224_nego_lemmas"))
-A(Fn(X224, "rdp_neg_req", mod="x224", ret="c", props=["C02", "C04", "C17"], fuel=8,
+A(Raw(r"""
+// ---------------- the connection PDU as message trees, transcribed from MS-RDPBCGR 2.2.1.1 / 2.2.1.2 (the SAME layout is used to READ the server's
+// X.224 Connection Confirm: x224Ccf = LI, code, DST-REF, SRC-REF, class option (7 bytes), then RDP_NEG_RSP 2.2.1.2.1 / RDP_NEG_FAILURE 2.2.1.2.2 =
+// type (u8), flags (u8), length (u16 LE, MUST be 0x0008: read through a Check), selectedProtocol / failureCode (u32 LE))
+pub open spec fn neg_view(ty: u8, flags: u8, result: u32) -> MV {
+    MV::Comp(seq![("type"@, MV::U8(ty)), ("flag"@, MV::U8(flags)), ("length"@, MV::Check(Box::new(MV::U16(8, true)))), ("result"@, MV::U32(result, true))])
+}
+pub open spec fn crq_view(li: u8, code: u8) -> MV {
+    MV::Comp(seq![("len"@, MV::U8(li)), ("code"@, MV::U8(code)), ("padding"@, MV::Trame(seq![MV::U16(0, true), MV::U16(0, true), MV::U8(0)]))])
+}
+pub open spec fn conn_pdu_view(ty: u8, flags: u8, result: u32) -> MV {
+    MV::Comp(seq![("header"@, crq_view(14, 0xE0)), ("negotiation"@, neg_view(ty, flags, result))])
+}
+""", mod="x224", name="x224_nego_views"))
+A(Fn(X224, "rdp_neg_req", mod="x224", ret="c", props=["C02", "C04", "C17", "C03"], fuel=8,
      ensures=shape_clauses(X224, "rdp_neg_req", res="c") + [("C04,C17", "bytes", "ser(c.mv()) =~= seq![(if neg_type is Some { neg_type->Some_0 as u8 } else { 1u8 }), (if flag is Some { flag->Some_0 } else { 0u8 }), 8u8, 0u8] + le32(if result is Some { result->Some_0 } else { 0u32 })"),
-                                                             (None, "full-shape", "is_neg(c.mv())")],
+                                                             (None, "full-shape", "is_neg(c.mv())"),
+                                                             # MS-RDPBCGR 2.2.1.2.1 RDP_NEG_RSP / 2.2.1.2.2 RDP_NEG_FAILURE (read with this layout): plain type and flags, length checked against 8, u32 LE result
+                                                             ("C03,C02", "rdp_neg_req-as-documented", "c.mv() == neg_view((if neg_type is Some { neg_type->Some_0 as u8 } else { 1u8 }), (if flag is Some { flag->Some_0 } else { 0u8 }), (if result is Some { result->Some_0 } else { 0u32 }))")],
      post="""proof {
         let f = c.fields();
         let t = if neg_type is Some { neg_type->Some_0 as u8 } else { 1u8 };
@@ -140,10 +156,13 @@ A(Fn(X224, "rdp_neg_req", mod="x224", ret="c", props=["C02", "C04", "C17"], fuel
         assert(ser(f[2].1) =~= seq![8u8, 0u8]);
         assert(ser(f[3].1) == le32(rs));
         assert(le32(rs).len() == 4);
+        assert(f =~= neg_view(t, fl, rs)->Comp_0);
      }"""))
-A(Fn(X224, "x224_crq", mod="x224", ret="c", props=["C04"], fuel=8, requires=["len <= 249"],
+A(Fn(X224, "x224_crq", mod="x224", ret="c", props=["C04", "C03"], fuel=8, requires=["len <= 249"],
      ensures=shape_clauses(X224, "x224_crq", res="c") + [("C04", "bytes", "ser(c.mv()) =~= seq![(len + 6) as u8, code as u8, 0u8, 0u8, 0u8, 0u8, 0u8]"),
-                                                          (None, "full-shape", "is_crq(c.mv())")],
+                                                          (None, "full-shape", "is_crq(c.mv())"),
+                                                          # X.224 connection TPDU header (MS-RDPBCGR 2.2.1.1 x224Crq / 2.2.1.2 x224Ccf): LI and code are plain bytes (the confirm carries 0xD0), 5 bytes of references / class
+                                                          ("C03", "x224_crq-as-documented", "c.mv() == crq_view((len + 6) as u8, code as u8)")],
      post="""proof {
         let f = c.fields();
         assert(f[0] == ("len"@, MV::U8((len + 6) as u8)));
@@ -156,16 +175,21 @@ A(Fn(X224, "x224_crq", mod="x224", ret="c", props=["C04"], fuel=8, requires=["le
         assert(tv[2] == MV::U8(0));
         assert(le16(0) =~= seq![0u8, 0u8]) by { assert((0u16 & 0xff) as u8 == 0u8 && ((0u16 >> 8) & 0xff) as u8 == 0u8) by(bit_vector); }
         assert(ser(f[2].1) =~= seq![0u8, 0u8, 0u8, 0u8, 0u8]);
+        assert(tv =~= seq![MV::U16(0, true), MV::U16(0, true), MV::U8(0)]);
+        assert(f =~= crq_view((len + 6) as u8, code as u8)->Comp_0);
      }"""))
-A(Fn(X224, "x224_connection_pdu", mod="x224", ret="c", props=["C04", "C17", "C02"], fuel=8,
+A(Fn(X224, "x224_connection_pdu", mod="x224", ret="c", props=["C04", "C17", "C02", "C03"], fuel=8,
      ensures=shape_clauses(X224, "x224_connection_pdu", res="c") + [("C04,C17", "bytes", "ser(c.mv()) =~= seq![14u8, 0xE0u8, 0u8, 0u8, 0u8, 0u8, 0u8, (if neg_type is Some { neg_type->Some_0 as u8 } else { 1u8 }), (if mode is Some { mode->Some_0 } else { 0u8 }), 8u8, 0u8] + le32(if protocols is Some { protocols->Some_0 } else { 0u32 })"),
                                                                      (None, "static", "is_static(c.mv()) && ser(c.mv()).len() == 15"),
-                                                                     (None, "full-shape", "is_conn_pdu(c.mv())")],
+                                                                     (None, "full-shape", "is_conn_pdu(c.mv())"),
+                                                                     # MS-RDPBCGR 2.2.1.2 Server X.224 Connection Confirm, READ with this layout by read_connection_confirm (which is proved on the wire bytes)
+                                                                     ("C03,C02", "x224_connection_pdu-as-documented", "c.mv() == conn_pdu_view((if neg_type is Some { neg_type->Some_0 as u8 } else { 1u8 }), (if mode is Some { mode->Some_0 } else { 0u8 }), (if protocols is Some { protocols->Some_0 } else { 0u32 }))")],
      post="""proof {
         let f = c.fields();
         assert(f[0].0 == "header"@ && is_crq(f[0].1));
         assert(f[1] == ("negotiation"@, negotiation.mv()));
         lemma_conn_pdu_bytes(c.mv());
+        assert(f =~= conn_pdu_view((if neg_type is Some { neg_type->Some_0 as u8 } else { 1u8 }), (if mode is Some { mode->Some_0 } else { 0u8 }), (if protocols is Some { protocols->Some_0 } else { 0u32 }))->Comp_0);
      }"""))
 A(Fn(X224, "new", impl=r"Client<S>", mod="x224", props=["C02"],
      ensures=["r.selected() == selected_protocol && r.tls() == transport.tls() && r.cert_checked() == transport.cert_checked() && r.written() == transport.written() && r.rest() == transport.rest()"]))
